@@ -3,6 +3,8 @@
 package harness
 
 import (
+	"bytes"
+	"crypto/sha256"
 	"fmt"
 	"hash/fnv"
 	"math/rand"
@@ -11,126 +13,263 @@ import (
 	"testing"
 	"time"
 
+	"github.com/google/uuid"
+
 	sdk "github.com/cosmos/cosmos-sdk/types"
+	"github.com/cosmos/cosmos-sdk/types/address"
+	"github.com/cosmos/cosmos-sdk/types/query"
 	authtypes "github.com/cosmos/cosmos-sdk/x/auth/types"
 	govtypes "github.com/cosmos/cosmos-sdk/x/gov/types"
 
 	simapp "github.com/provenance-io/provenance/app"
 	"github.com/provenance-io/provenance/x/attribute"
 	attrtypes "github.com/provenance-io/provenance/x/attribute/types"
+	metadatatypes "github.com/provenance-io/provenance/x/metadata/types"
 	nametypes "github.com/provenance-io/provenance/x/name/types"
 )
 
-// C16: histories of attribute writes (through the real message handlers), name binds /
-// transfers / deletions (real name message handlers) and blocks (block time moved, the real
-// attribute BeginBlocker run), over 3 target accounts, 3 names, 3 values.  After every step the
-// harness projects: all attributes of every account, AccountsByAttribute of every name, the
-// owner of every name, accepted/rejected.
+// C16: histories of attribute writes (real message handlers), account-data writes (message and
+// keeper), parameter updates, name binds / transfers / deletions (real name message handlers,
+// restricted and unrestricted parents, arbitrary spellings), direct purges and blocks (block time
+// moved; the real BeginBlocker, or DeleteExpiredAttributes with a small limit), over account and
+// scope holders.  After every step the harness projects: all attributes of every holder (keeper),
+// AccountsByAttribute and GetRecordByName of every name of the universe, Params.MaxValueLength,
+// and the gRPC queries Attributes / Attribute / Scan / AttributeAccounts (followed page by page)
+// and AccountData for one holder and one arbitrarily spelled name.
+
+const (
+	c16Gov    = 0
+	c16NoAcct = 4 // a user that never has an auth account
+	c16Scope  = 5 // a scope metadata address (valid holder)
+	c16Sess   = 6 // a session metadata address (NOT a valid holder)
+	c16Mod    = 8 // the attribute module account (owner of "accountdata")
+	c16Root   = 9 // owner of the root names
+	c16Limit  = 100000
+)
 
 type c16Rec struct {
-	acct, name, val, typ int64
-	exp                  *int64
+	acct int64
+	name string
+	val  int64
+	typ  int64
+	exp  *int64
 }
 
-func (r c16Rec) key() [3]int64 { return [3]int64{r.acct, r.name, r.val} }
+func (r c16Rec) key() string { return fmt.Sprintf("%d|%s|%d", r.acct, strings.ToLower(strings.TrimSpace(r.name)), r.val) }
+
+type c16NameRec struct {
+	bound  bool
+	stored string
+	owner  int64
+	restr  bool
+}
+
+type c16Q struct {
+	acct    int64
+	name    string
+	suffix  string
+	limit   int64
+	attrs   [][]c16Rec
+	attr    [][]c16Rec
+	scanned [][]c16Rec
+	accts   [][]int64
+	totals  []int64
+	adata   *int64 // nil = error
+}
 
 type c16Obs struct {
 	ok     bool
 	recs   []c16Rec
-	accts  [][]int64 // per name
-	owners []int64   // per name; -1 = unbound
+	accts  [][]int64    // per name
+	owners []c16NameRec // per name
+	maxlen int64
+	q      c16Q
 }
 
 type c16Env struct {
-	app      *simapp.App
-	addrs    map[int64]sdk.AccAddress // id -> address (callers 1..4, admin 9)
-	ids      map[string]int64         // bech32 -> id
-	gov      string
-	names    []string // index i -> full name of name id i+1
-	segs     []string
-	values   []string
-	root     string
-	targets  []int64 // attribute accounts
-	nameIDs  []int64
-	haveAcct []int64
+	app     *simapp.App
+	r       *rand.Rand
+	addrStr map[int64]string // id -> bech32 as used in messages (Account / Owner fields)
+	addrBz  map[int64][]byte // id -> raw bytes
+	idByStr map[string]int64
+	idByBz  map[string]int64
+	values  []string // index i -> value of id i+1
+	valID   map[string]int64
+	holders []int64 // every id whose attributes are dumped / listed
+	names   []string
+	genesis string
+	cfg     string // the Cfg term (constant per universe)
 }
 
-func (e *c16Env) addrStr(id int64) string {
-	if id == 0 {
-		return e.gov
-	}
-	return e.addrs[id].String()
-}
+func (e *c16Env) acc(id int64) sdk.AccAddress { return sdk.AccAddress(e.addrBz[id]) }
 
-func (e *c16Env) idOf(bech string) int64 {
-	if id, ok := e.ids[bech]; ok {
+func (e *c16Env) idOfStr(s string) int64 {
+	if id, ok := e.idByStr[s]; ok {
 		return id
 	}
 	return -1
 }
 
-func (e *c16Env) observe(ctx sdk.Context, ok bool) c16Obs {
+func (e *c16Env) idOfBz(b []byte) int64 {
+	if id, ok := e.idByBz[string(b)]; ok {
+		return id
+	}
+	return -1
+}
+
+func (e *c16Env) rec(at attrtypes.Attribute) c16Rec {
+	r := c16Rec{acct: e.idOfStr(at.Address), name: at.Name, typ: int64(at.AttributeType), val: -1}
+	if id, ok := e.valID[string(at.Value)]; ok {
+		r.val = id
+	}
+	if at.ExpirationDate != nil {
+		x := at.ExpirationDate.Unix()
+		r.exp = &x
+	}
+	return r
+}
+
+// pages follows a paginated query to its end: by next_key (first page offset 0) or by offset.
+func c16Pages[T any](byKey, reverse, countTotal bool, limit uint64, call func(*query.PageRequest) ([]T, *query.PageResponse, error)) ([][]T, int64, error) {
+	var pages [][]T
+	total := int64(-1)
+	req := &query.PageRequest{Limit: limit, Reverse: reverse, CountTotal: countTotal}
+	for i := 0; i < 200; i++ {
+		items, resp, err := call(req)
+		if err != nil {
+			return nil, -1, err
+		}
+		if i == 0 && countTotal && resp != nil {
+			total = int64(resp.Total)
+		}
+		pages = append(pages, items)
+		if byKey {
+			if resp == nil || len(resp.NextKey) == 0 {
+				break
+			}
+			req = &query.PageRequest{Key: resp.NextKey, Limit: limit, Reverse: reverse}
+		} else {
+			if uint64(len(items)) < limit {
+				break
+			}
+			req = &query.PageRequest{Offset: uint64(i+1) * limit, Limit: limit, Reverse: reverse}
+		}
+	}
+	return pages, total, nil
+}
+
+func (e *c16Env) queries(ctx sdk.Context, q c16Q, byKey, reverse, countTotal bool) c16Q {
+	k := e.app.AttributeKeeper
+	lim := uint64(q.limit)
+	conv := func(pages [][]attrtypes.Attribute) [][]c16Rec {
+		out := make([][]c16Rec, len(pages))
+		for i, pg := range pages {
+			out[i] = []c16Rec{}
+			for _, at := range pg {
+				out[i] = append(out[i], e.rec(at))
+			}
+		}
+		return out
+	}
+	acct := e.addrStr[q.acct]
+	q.totals = nil
+	p1, t1, err1 := c16Pages(byKey, reverse, countTotal, lim, func(pr *query.PageRequest) ([]attrtypes.Attribute, *query.PageResponse, error) {
+		resp, err := k.Attributes(ctx, &attrtypes.QueryAttributesRequest{Account: acct, Pagination: pr})
+		if err != nil {
+			return nil, nil, err
+		}
+		return resp.Attributes, resp.Pagination, nil
+	})
+	p2, t2, err2 := c16Pages(byKey, reverse, countTotal, lim, func(pr *query.PageRequest) ([]attrtypes.Attribute, *query.PageResponse, error) {
+		resp, err := k.Attribute(ctx, &attrtypes.QueryAttributeRequest{Account: acct, Name: q.name, Pagination: pr})
+		if err != nil {
+			return nil, nil, err
+		}
+		return resp.Attributes, resp.Pagination, nil
+	})
+	p3, t3, err3 := c16Pages(byKey, reverse, countTotal, lim, func(pr *query.PageRequest) ([]attrtypes.Attribute, *query.PageResponse, error) {
+		resp, err := k.Scan(ctx, &attrtypes.QueryScanRequest{Account: acct, Suffix: q.suffix, Pagination: pr})
+		if err != nil {
+			return nil, nil, err
+		}
+		return resp.Attributes, resp.Pagination, nil
+	})
+	p4, t4, err4 := c16Pages(byKey, reverse, countTotal, lim, func(pr *query.PageRequest) ([]string, *query.PageResponse, error) {
+		resp, err := k.AttributeAccounts(ctx, &attrtypes.QueryAttributeAccountsRequest{AttributeName: q.name, Pagination: pr})
+		if err != nil {
+			return nil, nil, err
+		}
+		return resp.Accounts, resp.Pagination, nil
+	})
+	if err1 == nil && err2 == nil && err3 == nil && err4 == nil {
+		q.attrs, q.attr, q.scanned = conv(p1), conv(p2), conv(p3)
+		for _, pg := range p4 {
+			ids := []int64{}
+			for _, s := range pg {
+				a, err := sdk.AccAddressFromBech32(s)
+				if err != nil {
+					ids = append(ids, -1)
+				} else {
+					ids = append(ids, e.idOfBz(a))
+				}
+			}
+			q.accts = append(q.accts, ids)
+		}
+		q.totals = []int64{t1, t2, t3, t4}
+	} // else: totals stay empty and the checker reports prop:query_totals
+	resp, err := k.AccountData(ctx, &attrtypes.QueryAccountDataRequest{Account: acct})
+	if err == nil {
+		v := int64(-1)
+		if resp.Value == "" {
+			v = 0
+		} else if id, ok := e.valID[resp.Value]; ok {
+			v = id
+		}
+		q.adata = &v
+	}
+	return q
+}
+
+func (e *c16Env) observe(ctx sdk.Context, ok bool, q *c16Q, byKey, reverse, countTotal bool) c16Obs {
 	o := c16Obs{ok: ok}
-	nameID := map[string]int64{}
-	for i, n := range e.names {
-		nameID[n] = int64(i + 1)
-	}
-	valID := map[string]int64{}
-	for i, v := range e.values {
-		valID[v] = int64(i + 1)
-	}
-	for _, a := range e.targets {
-		attrs, err := e.app.AttributeKeeper.GetAllAttributesAddr(ctx, e.addrs[a])
+	for _, a := range e.holders {
+		attrs, err := e.app.AttributeKeeper.GetAllAttributesAddr(ctx, e.addrBz[a])
 		if err != nil {
 			panic(err)
 		}
 		for _, at := range attrs {
-			r := c16Rec{acct: e.idOf(at.Address), typ: int64(at.AttributeType)}
-			if id, ok := nameID[at.Name]; ok {
-				r.name = id
-			} else {
-				r.name = -1
-			}
-			if id, ok := valID[string(at.Value)]; ok {
-				r.val = id
-			} else {
-				r.val = -1
-			}
-			if at.ExpirationDate != nil {
-				x := at.ExpirationDate.Unix()
-				r.exp = &x
-			}
-			o.recs = append(o.recs, r)
+			o.recs = append(o.recs, e.rec(at))
 		}
 	}
-	sort.Slice(o.recs, func(i, j int) bool {
-		a, b := o.recs[i].key(), o.recs[j].key()
-		for k := 0; k < 3; k++ {
-			if a[k] != b[k] {
-				return a[k] < b[k]
-			}
-		}
-		return false
-	})
 	for _, n := range e.names {
 		as, err := e.app.AttributeKeeper.AccountsByAttribute(ctx, n)
 		if err != nil {
 			panic(err)
 		}
-		var ids []int64
+		ids := []int64{}
 		for _, a := range as {
-			ids = append(ids, e.idOf(a.String()))
+			ids = append(ids, e.idOfBz(a))
 		}
-		sort.Slice(ids, func(i, j int) bool { return ids[i] < ids[j] })
 		o.accts = append(o.accts, ids)
 		rec, err := e.app.NameKeeper.GetRecordByName(ctx, n)
 		if err != nil || rec == nil {
-			o.owners = append(o.owners, -1)
+			o.owners = append(o.owners, c16NameRec{})
 		} else {
-			o.owners = append(o.owners, e.idOf(rec.Address))
+			o.owners = append(o.owners, c16NameRec{bound: true, stored: rec.Name, owner: e.idOfStr(rec.Address), restr: rec.Restricted})
 		}
 	}
+	o.maxlen = int64(e.app.AttributeKeeper.GetMaxValueLength(ctx))
+	if q != nil {
+		o.q = e.queries(ctx, *q, byKey, reverse, countTotal)
+	}
 	return o
+}
+
+func nN(x int64) string {
+	if x < 0 {
+		return "999999%N" // an id outside every universe
+	}
+	return fmt.Sprintf("%d%%N", x)
 }
 
 func c16OptZ(x *int64) string {
@@ -140,38 +279,72 @@ func c16OptZ(x *int64) string {
 	return "(Some " + zI64(*x) + ")"
 }
 
-func (o c16Obs) term() string {
-	var recs []string
-	for _, r := range o.recs {
-		recs = append(recs, fmt.Sprintf("(%s, %s, %s, %s, %s)", zI64(r.acct), zI64(r.name), zI64(r.val), zI64(r.typ), strings.Trim(c16OptZ(r.exp), "()")))
+func (r c16Rec) term() string {
+	return fmt.Sprintf("(%s, %s, %s, %s, %s)", nN(r.acct), coqStr(r.name), zI64(r.val), zI64(r.typ), strings.Trim(c16OptZ(r.exp), "()"))
+}
+
+func c16RecList(rs []c16Rec) string {
+	xs := []string{}
+	for _, r := range rs {
+		xs = append(xs, r.term())
 	}
+	return coqList(xs)
+}
+
+func c16NList(ids []int64) string {
+	xs := []string{}
+	for _, a := range ids {
+		xs = append(xs, nN(a))
+	}
+	return coqList(xs)
+}
+
+func (q c16Q) term() string {
+	pages := func(ps [][]c16Rec) string {
+		xs := []string{}
+		for _, p := range ps {
+			xs = append(xs, c16RecList(p))
+		}
+		return coqList(xs)
+	}
+	var ap []string
+	for _, p := range q.accts {
+		ap = append(ap, c16NList(p))
+	}
+	var ts []string
+	for _, t := range q.totals {
+		ts = append(ts, zI64(t))
+	}
+	return fmt.Sprintf("(QObs %s %s %s %d %s %s %s %s %s %s)", nN(q.acct), coqStr(q.name), coqStr(q.suffix), q.limit,
+		pages(q.attrs), pages(q.attr), pages(q.scanned), coqList(ap), coqList(ts), c16OptZ(q.adata))
+}
+
+func (o c16Obs) term() string {
 	var accts []string
 	for _, l := range o.accts {
-		var xs []string
-		for _, a := range l {
-			xs = append(xs, zI64(a))
-		}
-		accts = append(accts, coqList(xs))
+		accts = append(accts, c16NList(l))
 	}
 	var owners []string
 	for _, ow := range o.owners {
-		if ow < 0 {
+		if !ow.bound {
 			owners = append(owners, "None")
 		} else {
-			owners = append(owners, "Some "+zI64(ow))
+			owners = append(owners, fmt.Sprintf("Some (%s, %s, %s)", coqStr(ow.stored), nN(ow.owner), coqBool(ow.restr)))
 		}
 	}
-	return "Obs " + coqBool(o.ok) + " " + coqList(recs) + " " + coqList(accts) + " " + coqList(owners)
+	return "Obs " + coqBool(o.ok) + " " + c16RecList(o.recs) + " " + coqList(accts) + " " + coqList(owners) + " " + zI64(o.maxlen) + " " + o.q.term()
 }
 
 // one operation: its Coq term and how to run it on the real code
 type c16Op struct {
-	kind string
-	term string
-	desc map[string]any
-	run  func(ctx sdk.Context) error // nil for blocks
-	dt   int64
-	sp   int64 // spelling class of the name in the request
+	kind  string
+	term  string
+	desc  map[string]any
+	run   func(ctx sdk.Context) error // nil for blocks
+	dt    int64
+	limit int64
+	name  string // the name as sent, for attribute writes
+	spelt bool   // the name was not sent in canonical form
 }
 
 func (e *c16Env) handle(ctx sdk.Context, msg sdk.Msg) error {
@@ -188,13 +361,15 @@ func (e *c16Env) handle(ctx sdk.Context, msg sdk.Msg) error {
 	return err
 }
 
-// spell renders name id n in spelling class sp (see "Spelling" in coq/Attribute/Attribute.v):
-// 0 canonical; 1 spaces around the whole name; 2 other letter case (maybe with outer spaces);
-// 3 spaces inside, next to the dot; 4 inside spaces and other letter case.
-func (e *c16Env) spell(n, sp int64, variant int) string {
-	seg, root := e.segs[n-1], e.root
+// c16Spell renders the normalised name n in a spelling class: 0 canonical; 1 white space around
+// the whole name; 2 other letter case (maybe with outer white space); 3 white space inside, next
+// to a dot (or around the only segment); 4 inside white space and other letter case; 5 not a
+// valid name at all (blank, short / illegal segment, empty segment).
+func c16Spell(r *rand.Rand, n string, class int) string {
+	segs := strings.Split(n, ".")
+	i := r.Intn(len(segs))
 	upper := func(x string) string {
-		switch variant % 3 {
+		switch r.Intn(3) {
 		case 0:
 			return strings.ToUpper(x)
 		case 1:
@@ -203,21 +378,75 @@ func (e *c16Env) spell(n, sp int64, variant int) string {
 			return x[:1] + strings.ToUpper(x[1:])
 		}
 	}
-	switch sp {
-	case 1:
-		return []string{" ", "  ", "\t"}[variant%3] + seg + "." + root + []string{" ", "", " \t"}[(variant/3)%3]
-	case 2:
-		name := []string{upper(seg) + "." + root, seg + "." + strings.ToUpper(root), upper(seg) + "." + upper(root)}[(variant/3)%3]
-		if (variant/9)%2 == 1 {
-			name = " " + name + " "
+	pad := func(x string) string {
+		return []string{" ", "  ", "\t", ""}[r.Intn(4)] + x + []string{" ", "", " \t", "\t"}[r.Intn(4)]
+	}
+	inner := func() {
+		switch r.Intn(3) {
+		case 0:
+			segs[i] = segs[i] + " "
+		case 1:
+			segs[i] = " " + segs[i]
+		default:
+			segs[i] = " " + segs[i] + "\t"
 		}
-		return name
+	}
+	switch class {
+	case 1:
+		x := pad(n)
+		if x == n {
+			x = " " + n
+		}
+		return x
+	case 2:
+		segs[i] = upper(segs[i])
+		x := strings.Join(segs, ".")
+		if r.Intn(3) == 0 {
+			x = pad(x)
+		}
+		return x
 	case 3:
-		return []string{seg + " ." + root, seg + ". " + root, seg + " . " + root}[variant%3]
+		if len(segs) == 1 {
+			return " " + n + " "
+		}
+		inner()
+		if i == 0 && strings.HasPrefix(segs[0], " ") && len(segs) > 1 { // keep it an INNER space
+			segs[0] = strings.TrimLeft(segs[0], " ") + " "
+		}
+		if i == len(segs)-1 && len(segs) > 1 {
+			segs[i] = " " + strings.TrimSpace(segs[i])
+		}
+		return strings.Join(segs, ".")
 	case 4:
-		return []string{upper(seg) + " ." + root, seg + ". " + strings.ToUpper(root), upper(seg) + " . " + upper(root)}[variant%3]
+		if len(segs) > 1 {
+			inner()
+			if i == 0 {
+				segs[0] = strings.TrimLeft(segs[0], " ") + " "
+			}
+			if i == len(segs)-1 {
+				segs[i] = " " + strings.TrimSpace(segs[i])
+			}
+		}
+		j := r.Intn(len(segs))
+		segs[j] = strings.Replace(segs[j], strings.TrimSpace(segs[j]), upper(strings.TrimSpace(segs[j])), 1)
+		return strings.Join(segs, ".")
+	case 5:
+		switch r.Intn(5) {
+		case 0:
+			return ""
+		case 1:
+			return " \t "
+		case 2:
+			segs[i] = segs[i][:1]
+			return strings.Join(segs, ".")
+		case 3:
+			segs[i] = segs[i] + "_"
+			return strings.Join(segs, ".")
+		default:
+			return n + "."
+		}
 	default:
-		return seg + "." + root
+		return n
 	}
 }
 
@@ -229,92 +458,110 @@ func c16Time(x *int64) *time.Time {
 	return &t
 }
 
-func (e *c16Env) opBind(n, owner int64) c16Op {
-	return c16Op{kind: "bind", term: fmt.Sprintf("OBind %d %d", n, owner),
-		desc: map[string]any{"op": "bind_name", "name": n, "owner": owner},
+func (e *c16Env) opBind(parent string, signer int64, child string, owner int64, restr bool) c16Op {
+	return c16Op{kind: "bind", term: fmt.Sprintf("OBind %s %s %s %s %s", coqStr(parent), nN(signer), coqStr(child), nN(owner), coqBool(restr)),
+		desc: map[string]any{"op": "bind_name", "parent": parent, "signer": signer, "child": child, "owner": owner, "restricted": restr},
 		run: func(ctx sdk.Context) error {
 			return e.handle(ctx, &nametypes.MsgBindNameRequest{
-				Parent: nametypes.NameRecord{Name: e.root, Address: e.addrStr(9), Restricted: true},
-				Record: nametypes.NameRecord{Name: e.segs[n-1], Address: e.addrStr(owner), Restricted: true}})
+				Parent: nametypes.NameRecord{Name: parent, Address: e.addrStr[signer]},
+				Record: nametypes.NameRecord{Name: child, Address: e.addrStr[owner], Restricted: restr}})
 		}}
 }
 
-func (e *c16Env) opModify(auth, n, owner int64) c16Op {
-	return c16Op{kind: "modify_name", term: fmt.Sprintf("OModifyName %d %d %d", auth, n, owner),
-		desc: map[string]any{"op": "modify_name", "authority": auth, "name": n, "new_owner": owner},
+func (e *c16Env) opModify(signer int64, name string, owner int64, restr bool) c16Op {
+	return c16Op{kind: "modify_name", term: fmt.Sprintf("OModifyName %s %s %s %s", nN(signer), coqStr(name), nN(owner), coqBool(restr)),
+		desc: map[string]any{"op": "modify_name", "authority": signer, "name": name, "new_owner": owner, "restricted": restr},
 		run: func(ctx sdk.Context) error {
-			return e.handle(ctx, &nametypes.MsgModifyNameRequest{Authority: e.addrStr(auth),
-				Record: nametypes.NameRecord{Name: e.names[n-1], Address: e.addrStr(owner), Restricted: true}})
+			return e.handle(ctx, &nametypes.MsgModifyNameRequest{Authority: e.addrStr[signer],
+				Record: nametypes.NameRecord{Name: name, Address: e.addrStr[owner], Restricted: restr}})
 		}}
 }
 
-func (e *c16Env) opDeleteName(c, n int64) c16Op {
-	return c16Op{kind: "delete_name", term: fmt.Sprintf("ODeleteName %d %d", c, n),
-		desc: map[string]any{"op": "delete_name", "caller": c, "name": n},
+func (e *c16Env) opDeleteName(name string, signer int64) c16Op {
+	return c16Op{kind: "delete_name", name: name, term: fmt.Sprintf("ODeleteName %s %s", coqStr(name), nN(signer)),
+		desc: map[string]any{"op": "delete_name", "caller": signer, "name": name},
 		run: func(ctx sdk.Context) error {
-			return e.handle(ctx, &nametypes.MsgDeleteNameRequest{Record: nametypes.NameRecord{Name: e.names[n-1], Address: e.addrStr(c)}})
+			return e.handle(ctx, &nametypes.MsgDeleteNameRequest{Record: nametypes.NameRecord{Name: name, Address: e.addrStr[signer]}})
 		}}
 }
 
-func (e *c16Env) opAdd(c, a, n, v, ty int64, exp *int64, sp int64, vr int) c16Op {
-	name := e.spell(n, sp, vr)
-	return c16Op{kind: "add", sp: sp, term: fmt.Sprintf("OAdd %d %d %d %d %d %s %d", c, a, n, v, ty, c16OptZ(exp), sp),
-		desc: map[string]any{"op": "add", "caller": c, "account": a, "name": n, "name_as_sent": name, "value": v, "type": ty, "exp": exp},
+func (e *c16Env) opAdd(c, a int64, name string, v, ty int64, exp *int64) c16Op {
+	return c16Op{kind: "add", name: name, term: fmt.Sprintf("OAdd %s %s %s %d %d %s", nN(c), nN(a), coqStr(name), v, ty, c16OptZ(exp)),
+		desc: map[string]any{"op": "add", "caller": c, "account": a, "name": name, "value": v, "type": ty, "exp": exp},
 		run: func(ctx sdk.Context) error {
 			return e.handle(ctx, &attrtypes.MsgAddAttributeRequest{Name: name, Value: []byte(e.values[v-1]),
-				AttributeType: attrtypes.AttributeType(ty), Account: e.addrStr(a), Owner: e.addrStr(c), ExpirationDate: c16Time(exp)})
+				AttributeType: attrtypes.AttributeType(ty), Account: e.addrStr[a], Owner: e.addrStr[c], ExpirationDate: c16Time(exp)})
 		}}
 }
 
-func (e *c16Env) opUpdate(c, a, n, ov, oty, nv, nty int64, sp int64, vr int) c16Op {
-	name := e.spell(n, sp, vr)
-	return c16Op{kind: "update", sp: sp, term: fmt.Sprintf("OUpdate %d %d %d %d %d %d %d %d", c, a, n, ov, oty, nv, nty, sp),
-		desc: map[string]any{"op": "update", "caller": c, "account": a, "name": n, "name_as_sent": name, "orig_value": ov, "orig_type": oty, "value": nv, "type": nty},
+func (e *c16Env) opUpdate(c, a int64, name string, ov, oty, nv, nty int64) c16Op {
+	return c16Op{kind: "update", name: name, term: fmt.Sprintf("OUpdate %s %s %s %d %d %d %d", nN(c), nN(a), coqStr(name), ov, oty, nv, nty),
+		desc: map[string]any{"op": "update", "caller": c, "account": a, "name": name, "orig_value": ov, "orig_type": oty, "value": nv, "type": nty},
 		run: func(ctx sdk.Context) error {
 			return e.handle(ctx, &attrtypes.MsgUpdateAttributeRequest{Name: name, OriginalValue: []byte(e.values[ov-1]), UpdateValue: []byte(e.values[nv-1]),
-				OriginalAttributeType: attrtypes.AttributeType(oty), UpdateAttributeType: attrtypes.AttributeType(nty), Account: e.addrStr(a), Owner: e.addrStr(c)})
+				OriginalAttributeType: attrtypes.AttributeType(oty), UpdateAttributeType: attrtypes.AttributeType(nty), Account: e.addrStr[a], Owner: e.addrStr[c]})
 		}}
 }
 
-func (e *c16Env) opUpdateExp(c, a, n, v int64, exp *int64, sp int64, vr int) c16Op {
-	name := e.spell(n, sp, vr)
-	return c16Op{kind: "update_exp", sp: sp, term: fmt.Sprintf("OUpdateExp %d %d %d %d %s %d", c, a, n, v, c16OptZ(exp), sp),
-		desc: map[string]any{"op": "update_expiration", "caller": c, "account": a, "name": n, "name_as_sent": name, "value": v, "exp": exp},
+func (e *c16Env) opUpdateExp(c, a int64, name string, v int64, exp *int64) c16Op {
+	return c16Op{kind: "update_exp", name: name, term: fmt.Sprintf("OUpdateExp %s %s %s %d %s", nN(c), nN(a), coqStr(name), v, c16OptZ(exp)),
+		desc: map[string]any{"op": "update_expiration", "caller": c, "account": a, "name": name, "value": v, "exp": exp},
 		run: func(ctx sdk.Context) error {
 			return e.handle(ctx, &attrtypes.MsgUpdateAttributeExpirationRequest{Name: name, Value: []byte(e.values[v-1]),
-				ExpirationDate: c16Time(exp), Account: e.addrStr(a), Owner: e.addrStr(c)})
+				ExpirationDate: c16Time(exp), Account: e.addrStr[a], Owner: e.addrStr[c]})
 		}}
 }
 
-func (e *c16Env) opDelete(c, a, n int64, sp int64, vr int) c16Op {
-	name := e.spell(n, sp, vr)
-	return c16Op{kind: "delete", sp: sp, term: fmt.Sprintf("ODelete %d %d %d %d", c, a, n, sp),
-		desc: map[string]any{"op": "delete", "caller": c, "account": a, "name": n, "name_as_sent": name},
+func (e *c16Env) opDelete(c, a int64, name string) c16Op {
+	return c16Op{kind: "delete", name: name, term: fmt.Sprintf("ODelete %s %s %s", nN(c), nN(a), coqStr(name)),
+		desc: map[string]any{"op": "delete", "caller": c, "account": a, "name": name},
 		run: func(ctx sdk.Context) error {
-			return e.handle(ctx, &attrtypes.MsgDeleteAttributeRequest{Name: name, Account: e.addrStr(a), Owner: e.addrStr(c)})
+			return e.handle(ctx, &attrtypes.MsgDeleteAttributeRequest{Name: name, Account: e.addrStr[a], Owner: e.addrStr[c]})
 		}}
 }
 
-func (e *c16Env) opDeleteDistinct(c, a, n, v int64, sp int64, vr int) c16Op {
-	name := e.spell(n, sp, vr)
-	return c16Op{kind: "delete_distinct", sp: sp, term: fmt.Sprintf("ODeleteDistinct %d %d %d %d %d", c, a, n, v, sp),
-		desc: map[string]any{"op": "delete_distinct", "caller": c, "account": a, "name": n, "name_as_sent": name, "value": v},
+func (e *c16Env) opDeleteDistinct(c, a int64, name string, v int64) c16Op {
+	return c16Op{kind: "delete_distinct", name: name, term: fmt.Sprintf("ODeleteDistinct %s %s %s %d", nN(c), nN(a), coqStr(name), v),
+		desc: map[string]any{"op": "delete_distinct", "caller": c, "account": a, "name": name, "value": v},
 		run: func(ctx sdk.Context) error {
-			return e.handle(ctx, &attrtypes.MsgDeleteDistinctAttributeRequest{Name: name, Value: []byte(e.values[v-1]), Account: e.addrStr(a), Owner: e.addrStr(c)})
+			return e.handle(ctx, &attrtypes.MsgDeleteDistinctAttributeRequest{Name: name, Value: []byte(e.values[v-1]), Account: e.addrStr[a], Owner: e.addrStr[c]})
 		}}
 }
 
-func (e *c16Env) opPurge(c, n int64) c16Op {
-	return c16Op{kind: "purge", term: fmt.Sprintf("OPurge %d %d", c, n),
-		desc: map[string]any{"op": "purge (keeper)", "caller": c, "name": n},
+func (e *c16Env) opPurge(c int64, name string) c16Op {
+	return c16Op{kind: "purge", name: name, term: fmt.Sprintf("OPurge %s %s", nN(c), coqStr(name)),
+		desc: map[string]any{"op": "purge (keeper)", "caller": c, "name": name},
 		run: func(ctx sdk.Context) error {
-			return e.app.AttributeKeeper.PurgeAttribute(ctx, e.names[n-1], e.addrs[c])
+			return e.app.AttributeKeeper.PurgeAttribute(ctx, name, e.acc(c))
 		}}
 }
 
-func (e *c16Env) opBlock(dt int64) c16Op {
-	return c16Op{kind: "block", term: fmt.Sprintf("OBlock %d", dt), dt: dt,
-		desc: map[string]any{"op": "block", "dt": dt}}
+func (e *c16Env) opSetAccountData(viaMsg bool, a, v int64) c16Op {
+	val := ""
+	if v > 0 {
+		val = e.values[v-1]
+	}
+	return c16Op{kind: "set_account_data", term: fmt.Sprintf("OSetAccountData %s %s %d", coqBool(viaMsg), nN(a), v),
+		desc: map[string]any{"op": "set_account_data", "via_msg": viaMsg, "account": a, "value": v},
+		run: func(ctx sdk.Context) error {
+			if viaMsg {
+				return e.handle(ctx, &attrtypes.MsgSetAccountDataRequest{Value: val, Account: e.addrStr[a]})
+			}
+			return e.app.AttributeKeeper.SetAccountData(ctx, e.addrStr[a], val)
+		}}
+}
+
+func (e *c16Env) opSetMaxLen(auth, m int64) c16Op {
+	return c16Op{kind: "set_max_length", term: fmt.Sprintf("OSetMaxLen %s %d", nN(auth), m),
+		desc: map[string]any{"op": "update_params", "authority": auth, "max_value_length": m},
+		run: func(ctx sdk.Context) error {
+			return e.handle(ctx, &attrtypes.MsgUpdateParamsRequest{Authority: e.addrStr[auth], Params: attrtypes.Params{MaxValueLength: uint32(m)}})
+		}}
+}
+
+func (e *c16Env) opBlock(dt, limit int64) c16Op {
+	return c16Op{kind: "block", term: fmt.Sprintf("OBlock %d %d", dt, limit), dt: dt, limit: limit,
+		desc: map[string]any{"op": "block", "dt": dt, "sweep_limit": limit}}
 }
 
 var c16GoodTypes = []int64{2, 3, 5, 6, 7, 8}
@@ -322,14 +569,19 @@ var c16BadTypes = []int64{0, 1, 4}
 
 // generator state for one history (everything read back from the implementation's observations)
 type c16Gen struct {
-	r       *rand.Rand
-	e       *c16Env
-	now     int64
-	last    c16Obs
-	expPool []int64 // every expiration ever submitted (targets for block times)
+	r        *rand.Rand
+	e        *c16Env
+	now      int64
+	last     c16Obs
+	expPool  []int64 // every expiration ever submitted (targets for block times)
+	attrName []string
+	parent   map[string]string // attribute name -> its parent name
+	users    []int64
+	targets  []int64
 }
 
-func (g *c16Gen) pick(xs []int64) int64 { return xs[g.r.Intn(len(xs))] }
+func (g *c16Gen) pick(xs []int64) int64      { return xs[g.r.Intn(len(xs))] }
+func (g *c16Gen) pickS(xs []string) string { return xs[g.r.Intn(len(xs))] }
 
 func (g *c16Gen) goodType() int64 {
 	if g.r.Intn(25) == 0 {
@@ -338,39 +590,81 @@ func (g *c16Gen) goodType() int64 {
 	return g.pick(c16GoodTypes)
 }
 
-func (g *c16Gen) boundNames() []int64 {
-	var out []int64
-	for i, o := range g.last.owners {
-		if o >= 0 {
-			out = append(out, int64(i+1))
+func (g *c16Gen) nameRec(n string) c16NameRec {
+	for i, m := range g.e.names {
+		if m == n {
+			return g.last.owners[i]
+		}
+	}
+	return c16NameRec{}
+}
+
+func (g *c16Gen) boundNames() []string {
+	var out []string
+	for _, n := range g.attrName {
+		if g.nameRec(n).bound {
+			out = append(out, n)
 		}
 	}
 	return out
 }
 
-func (g *c16Gen) anyName() int64 {
+func (g *c16Gen) anyName() string {
 	if b := g.boundNames(); len(b) > 0 && g.r.Intn(12) != 0 {
-		return g.pick(b)
+		return g.pickS(b)
 	}
-	return g.pick(g.e.nameIDs)
+	if g.r.Intn(10) == 0 { // a root, or the account-data name
+		return g.pickS(g.e.names)
+	}
+	return g.pickS(g.attrName)
 }
 
 // caller for a write under name n: mostly the current owner
-func (g *c16Gen) caller(n int64) int64 {
-	ow := g.last.owners[n-1]
-	if ow > 0 && g.r.Intn(100) < 82 {
-		return ow
+func (g *c16Gen) caller(n string) int64 {
+	nr := g.nameRec(n)
+	if nr.bound && nr.owner >= 0 && g.r.Intn(100) < 82 {
+		return nr.owner
 	}
-	return g.pick([]int64{1, 2, 3, 4})
+	return g.pick([]int64{1, 2, 3, 1, 2, 3, c16NoAcct, c16Mod, c16Root})
 }
 
-// callerSp: with a non-canonical spelling the caller is a non-owner half of the time (a request
-// whose name merely looks different must not get past the ownership check)
-func (g *c16Gen) callerSp(n, sp int64) int64 {
-	if sp != 0 && g.r.Intn(2) == 0 {
-		return g.pick([]int64{1, 2, 3, 4})
+// spell: the name as sent; canonical most of the time.  With a non-canonical spelling the caller is
+// a non-owner half of the time (a request whose name merely looks different must not get past
+// the ownership check).
+func (g *c16Gen) spell(n string) (string, bool) {
+	x := g.r.Intn(100)
+	if x < 68 {
+		return n, false
+	}
+	if x < 71 {
+		return c16Spell(g.r, n, 5), true
+	}
+	return c16Spell(g.r, n, g.r.Intn(4)+1), true
+}
+
+func (g *c16Gen) callerSp(n string, spelt bool) int64 {
+	if spelt && g.r.Intn(2) == 0 {
+		return g.pick([]int64{1, 2, 3, c16NoAcct})
 	}
 	return g.caller(n)
+}
+
+func (g *c16Gen) target() int64 {
+	if g.r.Intn(14) == 0 {
+		return g.pick([]int64{c16Sess, c16NoAcct, c16Root})
+	}
+	return g.pick(g.targets)
+}
+
+func (g *c16Gen) value() int64 {
+	switch x := g.r.Intn(40); {
+	case x == 0:
+		return 5 // longer than the default limit
+	case x < 6:
+		return 4
+	default:
+		return int64(g.r.Intn(3) + 1)
+	}
 }
 
 func (g *c16Gen) newExp() *int64 {
@@ -389,14 +683,6 @@ func (g *c16Gen) newExp() *int64 {
 		g.expPool = append(g.expPool, v)
 		return &v
 	}
-}
-
-// sp picks how the name is spelled in the request: canonical most of the time
-func (g *c16Gen) sp() (int64, int) {
-	if g.r.Intn(100) < 70 {
-		return 0, 0
-	}
-	return int64(g.r.Intn(4) + 1), g.r.Intn(54)
 }
 
 func (g *c16Gen) existing() (c16Rec, bool) {
@@ -418,102 +704,175 @@ func (g *c16Gen) blockDt() int64 {
 	return []int64{0, 1, 1, 2, 3, 5, 8, 13, 21}[g.r.Intn(9)]
 }
 
+func (g *c16Gen) blockLimit() int64 {
+	switch x := g.r.Intn(20); {
+	case x < 15:
+		return c16Limit // the real BeginBlocker
+	case x == 15:
+		return 0 // DeleteExpiredAttributes without limit
+	default:
+		return int64(g.r.Intn(3) + 1)
+	}
+}
+
+// bind of attribute name n (child.parent) by a signer who may do it most of the time
+func (g *c16Gen) bindOp(n string) c16Op {
+	e := g.e
+	parent := g.parent[n]
+	child := strings.TrimSuffix(n, "."+parent)
+	pr := g.nameRec(parent)
+	signer := g.pick([]int64{1, 2, 3, c16Root})
+	if pr.bound && pr.restr && g.r.Intn(100) < 85 {
+		signer = pr.owner
+	}
+	if g.r.Intn(40) == 0 {
+		signer = c16Gov
+	}
+	owner := g.pick([]int64{1, 2, 3, 1, 2, 3, 1, 2, 3, c16NoAcct, c16Root})
+	if g.r.Intn(100) < 22 {
+		if g.r.Intn(2) == 0 {
+			parent = c16Spell(g.r, parent, g.r.Intn(5)+1)
+		} else {
+			child = c16Spell(g.r, child, []int{1, 2, 5}[g.r.Intn(3)])
+		}
+	}
+	return e.opBind(parent, signer, child, owner, g.r.Intn(3) != 0)
+}
+
 func (g *c16Gen) next() c16Op {
 	e := g.e
-	free := []int64{}
-	for i, o := range g.last.owners {
-		if o < 0 {
-			free = append(free, int64(i+1))
+	var free []string
+	for _, n := range g.attrName {
+		if !g.nameRec(n).bound {
+			free = append(free, n)
 		}
 	}
 	x := g.r.Intn(100)
 	switch {
-	case x < 5 || (len(free) == len(e.nameIDs)):
-		n := g.pick(e.nameIDs)
+	case x < 6 || (len(free) == len(g.attrName)):
+		n := g.pickS(g.attrName)
 		if len(free) > 0 && g.r.Intn(8) != 0 {
-			n = g.pick(free)
+			n = g.pickS(free)
 		}
-		return e.opBind(n, g.pick([]int64{1, 2, 3}))
-	case x < 9:
+		return g.bindOp(n)
+	case x < 10:
 		n := g.anyName()
 		auth := g.caller(n)
-		if g.r.Intn(15) == 0 {
-			auth = 0 // governance
+		if g.r.Intn(12) == 0 {
+			auth = c16Gov
 		}
-		owner := g.pick([]int64{1, 2, 3, 1, 2, 3, 4})
-		return e.opModify(auth, n, owner)
-	case x < 12:
+		owner := g.pick([]int64{1, 2, 3, 1, 2, 3, c16NoAcct})
+		name, _ := g.spell(n)
+		return e.opModify(auth, name, owner, g.r.Intn(3) != 0)
+	case x < 13:
 		n := g.anyName()
-		return e.opDeleteName(g.caller(n), n)
-	case x < 42:
+		name, spelt := g.spell(n)
+		return e.opDeleteName(name, g.callerSp(n, spelt))
+	case x < 41:
 		// add; a third of the time re-add an attribute that exists (same account, name, value)
 		if rec, ok := g.existing(); ok && g.r.Intn(3) == 0 {
 			ty := rec.typ
 			if g.r.Intn(2) == 0 {
 				ty = g.goodType()
 			}
+			name, _ := g.spell(rec.name)
 			if rec.exp != nil && *rec.exp >= g.now && g.r.Intn(4) == 0 { // same expiration, maybe another type
 				same := *rec.exp
-				sp, vr := g.sp()
-				return e.opAdd(g.caller(rec.name), rec.acct, rec.name, rec.val, ty, &same, sp, vr)
+				return e.opAdd(g.caller(rec.name), rec.acct, name, rec.val, ty, &same)
 			}
-			sp, vr := g.sp()
-			return e.opAdd(g.caller(rec.name), rec.acct, rec.name, rec.val, ty, g.newExp(), sp, vr)
+			return e.opAdd(g.caller(rec.name), rec.acct, name, rec.val, ty, g.newExp())
 		}
 		n := g.anyName()
-		sp, vr := g.sp()
-		return e.opAdd(g.caller(n), g.pick(e.targets), n, int64(g.r.Intn(3)+1), g.goodType(), g.newExp(), sp, vr)
-	case x < 52:
+		name, spelt := g.spell(n)
+		return e.opAdd(g.callerSp(n, spelt && g.r.Intn(2) == 0), g.target(), name, g.value(), g.goodType(), g.newExp())
+	case x < 50:
 		if rec, ok := g.existing(); ok && g.r.Intn(8) != 0 {
 			oty := rec.typ
 			if g.r.Intn(8) == 0 {
 				oty = g.pick(c16GoodTypes)
 			}
-			sp, vr := g.sp()
-			return e.opUpdate(g.caller(rec.name), rec.acct, rec.name, rec.val, oty, int64(g.r.Intn(3)+1), g.goodType(), sp, vr)
+			name, _ := g.spell(rec.name)
+			return e.opUpdate(g.caller(rec.name), rec.acct, name, rec.val, oty, g.value(), g.goodType())
 		}
 		n := g.anyName()
-		sp, vr := g.sp()
-		return e.opUpdate(g.caller(n), g.pick(e.targets), n, int64(g.r.Intn(3)+1), g.pick(c16GoodTypes), int64(g.r.Intn(3)+1), g.goodType(), sp, vr)
-	case x < 62:
+		name, _ := g.spell(n)
+		return e.opUpdate(g.caller(n), g.target(), name, int64(g.r.Intn(3)+1), g.pick(c16GoodTypes), g.value(), g.goodType())
+	case x < 59:
 		if rec, ok := g.existing(); ok && g.r.Intn(8) != 0 {
-			sp, vr := g.sp()
-			return e.opUpdateExp(g.caller(rec.name), rec.acct, rec.name, rec.val, g.newExp(), sp, vr)
+			name, _ := g.spell(rec.name)
+			return e.opUpdateExp(g.caller(rec.name), rec.acct, name, rec.val, g.newExp())
 		}
 		n := g.anyName()
-		sp, vr := g.sp()
-		return e.opUpdateExp(g.caller(n), g.pick(e.targets), n, int64(g.r.Intn(3)+1), g.newExp(), sp, vr)
-	case x < 67:
+		name, _ := g.spell(n)
+		return e.opUpdateExp(g.caller(n), g.target(), name, int64(g.r.Intn(3)+1), g.newExp())
+	case x < 64:
 		if rec, ok := g.existing(); ok && g.r.Intn(6) != 0 {
-			sp, vr := g.sp()
-			return e.opDelete(g.callerSp(rec.name, sp), rec.acct, rec.name, sp, vr)
+			name, spelt := g.spell(rec.name)
+			return e.opDelete(g.callerSp(rec.name, spelt), rec.acct, name)
 		}
 		n := g.anyName()
-		sp, vr := g.sp()
-		return e.opDelete(g.callerSp(n, sp), g.pick(e.targets), n, sp, vr)
-	case x < 73:
+		name, spelt := g.spell(n)
+		return e.opDelete(g.callerSp(n, spelt), g.target(), name)
+	case x < 70:
 		if rec, ok := g.existing(); ok && g.r.Intn(6) != 0 {
-			sp, vr := g.sp()
-			return e.opDeleteDistinct(g.callerSp(rec.name, sp), rec.acct, rec.name, rec.val, sp, vr)
+			name, spelt := g.spell(rec.name)
+			return e.opDeleteDistinct(g.callerSp(rec.name, spelt), rec.acct, name, rec.val)
 		}
 		n := g.anyName()
-		sp, vr := g.sp()
-		return e.opDeleteDistinct(g.callerSp(n, sp), g.pick(e.targets), n, int64(g.r.Intn(3)+1), sp, vr)
+		name, spelt := g.spell(n)
+		return e.opDeleteDistinct(g.callerSp(n, spelt), g.target(), name, int64(g.r.Intn(3)+1))
+	case x < 72:
+		n := g.anyName()
+		name, spelt := g.spell(n)
+		return e.opPurge(g.callerSp(n, spelt), name)
 	case x < 75:
-		n := g.anyName()
-		return e.opPurge(g.caller(n), n)
+		a := g.pick([]int64{1, 2, 3, c16Scope, c16Scope, c16Sess})
+		viaMsg := a != c16Scope && a != c16Sess
+		if g.r.Intn(6) == 0 {
+			viaMsg = !viaMsg
+		}
+		v := g.pick([]int64{0, 1, 2, 3, 1, 2, 3, 4, 5})
+		return e.opSetAccountData(viaMsg, a, v)
+	case x < 77:
+		auth := int64(c16Gov)
+		if g.r.Intn(4) == 0 {
+			auth = g.pick([]int64{1, c16Mod, c16Root})
+		}
+		return e.opSetMaxLen(auth, g.pick([]int64{1, 2, 9, 10, 10000, 10001, 4294967295}))
 	default:
-		return e.opBlock(g.blockDt())
+		return e.opBlock(g.blockDt(), g.blockLimit())
 	}
+}
+
+// an unbound attribute name, bound to owner ow by someone entitled to
+func (g *c16Gen) scBind(n string, ow int64) c16Op {
+	parent := g.parent[n]
+	child := strings.TrimSuffix(n, "."+parent)
+	pr := g.nameRec(parent)
+	signer := ow
+	if pr.bound && pr.restr {
+		signer = pr.owner
+	}
+	return g.e.opBind(parent, signer, child, ow, g.r.Intn(2) == 0)
+}
+
+func (g *c16Gen) topName() string {
+	var tops []string
+	for _, n := range g.attrName {
+		if strings.Count(n, ".") == 1 {
+			tops = append(tops, n)
+		}
+	}
+	return g.pickS(tops)
 }
 
 // directed opening: the shape behind the repaired defect (an identical attribute re-added with a
 // later / no expiration, or added again after a purge, then a block between the two times)
 func (g *c16Gen) scenario() []c16Op {
 	e := g.e
-	n := g.pick(e.nameIDs)
-	ow := g.pick([]int64{1, 2, 3})
-	a := g.pick(e.targets)
+	n := g.topName()
+	ow := g.pick(g.users)
+	a := g.pick(g.targets)
 	v := int64(g.r.Intn(3) + 1)
 	e1 := g.now + int64(g.r.Intn(5)+1)
 	var e2 *int64
@@ -523,21 +882,21 @@ func (g *c16Gen) scenario() []c16Op {
 		g.expPool = append(g.expPool, x)
 	}
 	g.expPool = append(g.expPool, e1)
-	sp1, vr1 := g.sp()
-	sp2, vr2 := g.sp()
-	ops := []c16Op{e.opBind(n, ow), e.opAdd(ow, a, n, v, g.pick(c16GoodTypes), &e1, sp1, vr1)}
+	n1, _ := g.spell(n)
+	n2, _ := g.spell(n)
+	ops := []c16Op{g.scBind(n, ow), e.opAdd(ow, a, n1, v, g.pick(c16GoodTypes), &e1)}
 	switch g.r.Intn(3) {
 	case 0:
 		ops = append(ops, e.opPurge(ow, n))
 	case 1:
-		ops = append(ops, e.opDeleteName(ow, n), e.opBind(n, ow))
+		ops = append(ops, e.opDeleteName(n, ow), g.scBind(n, ow))
 	}
-	ops = append(ops, e.opAdd(ow, a, n, v, g.pick(c16GoodTypes), e2, sp2, vr2))
+	ops = append(ops, e.opAdd(ow, a, n2, v, g.pick(c16GoodTypes), e2))
 	dt := e1 - g.now + 1
 	if e2 != nil && g.r.Intn(2) == 0 {
 		dt = *e2 - g.now // exactly at the new expiration: still not due
 	}
-	ops = append(ops, e.opBlock(dt))
+	ops = append(ops, e.opBlock(dt, c16Limit))
 	return ops
 }
 
@@ -548,9 +907,9 @@ func (g *c16Gen) scenario() []c16Op {
 // the same time; 3 re-add under a non-canonical spelling of the name.
 func (g *c16Gen) scenarioSameExp(variant int) []c16Op {
 	e := g.e
-	n := g.pick(e.nameIDs)
-	ow := g.pick([]int64{1, 2, 3})
-	a := g.pick(e.targets)
+	n := g.topName()
+	ow := g.pick(g.users)
+	a := g.pick(g.targets)
 	v := int64(g.r.Intn(3) + 1)
 	e1 := g.now + int64(g.r.Intn(6)+1)
 	g.expPool = append(g.expPool, e1)
@@ -559,19 +918,19 @@ func (g *c16Gen) scenarioSameExp(variant int) []c16Op {
 	for t2 == t1 {
 		t2 = g.pick(c16GoodTypes)
 	}
-	ops := []c16Op{e.opBind(n, ow), e.opAdd(ow, a, n, v, t1, &e1, 0, 0)}
+	ops := []c16Op{g.scBind(n, ow), e.opAdd(ow, a, n, v, t1, &e1)}
 	if g.r.Intn(3) == 0 { // some time passes first, not reaching e1
-		ops = append(ops, e.opBlock(int64(g.r.Intn(int(e1-g.now)))))
+		ops = append(ops, e.opBlock(int64(g.r.Intn(int(e1-g.now))), c16Limit))
 	}
 	switch variant {
 	case 1:
-		ops = append(ops, e.opAdd(ow, a, n, v, t2, &e1, 0, 0), e.opAdd(ow, a, n, v, t1, &e1, 0, 0))
+		ops = append(ops, e.opAdd(ow, a, n, v, t2, &e1), e.opAdd(ow, a, n, v, t1, &e1))
 	case 2:
-		ops = append(ops, e.opAdd(ow, a, n, v, t2, &e1, 0, 0), e.opUpdateExp(ow, a, n, v, &e1, 0, 0))
+		ops = append(ops, e.opAdd(ow, a, n, v, t2, &e1), e.opUpdateExp(ow, a, n, v, &e1))
 	case 3:
-		ops = append(ops, e.opAdd(ow, a, n, v, t2, &e1, int64(g.r.Intn(4)+1), g.r.Intn(54)))
+		ops = append(ops, e.opAdd(ow, a, c16Spell(g.r, n, g.r.Intn(4)+1), v, t2, &e1))
 	default:
-		ops = append(ops, e.opAdd(ow, a, n, v, t2, &e1, 0, 0))
+		ops = append(ops, e.opAdd(ow, a, n, v, t2, &e1))
 	}
 	// the dts are relative to the block time at which each block op runs
 	elapsed := int64(0)
@@ -580,59 +939,246 @@ func (g *c16Gen) scenarioSameExp(variant int) []c16Op {
 	}
 	left := e1 - g.now - elapsed
 	if g.r.Intn(2) == 0 { // first land exactly on e1 (not due yet), then one second later
-		ops = append(ops, e.opBlock(left), e.opBlock(1))
+		ops = append(ops, e.opBlock(left, c16Limit), e.opBlock(1, c16Limit))
 	} else {
-		ops = append(ops, e.opBlock(left+1+int64(g.r.Intn(3))))
+		ops = append(ops, e.opBlock(left+1+int64(g.r.Intn(3)), c16Limit))
 	}
 	return ops
 }
 
+// third directed opening: more attributes fall due in one block than the sweep's limit allows;
+// several blocks with a small limit, then the real BeginBlocker.
+func (g *c16Gen) scenarioLimit() []c16Op {
+	e := g.e
+	n := g.topName()
+	ow := g.pick(g.users)
+	ops := []c16Op{g.scBind(n, ow)}
+	k := 3 + g.r.Intn(4)
+	base := g.now + 1 + int64(g.r.Intn(3))
+	last := base
+	for i := 0; i < k; i++ {
+		ex := base + int64(g.r.Intn(3))
+		if ex > last {
+			last = ex
+		}
+		g.expPool = append(g.expPool, ex)
+		ops = append(ops, e.opAdd(ow, g.pick(g.targets), n, int64(i%3+1), g.pick(c16GoodTypes), &ex))
+	}
+	if g.r.Intn(2) == 0 { // one of them re-added with a later expiration: a stale entry among the due ones
+		later := last + 5
+		g.expPool = append(g.expPool, later)
+		ops = append(ops, e.opAdd(ow, g.pick(g.targets), n, 1, g.pick(c16GoodTypes), &later))
+	}
+	lim := int64(1 + g.r.Intn(2))
+	ops = append(ops, e.opBlock(last-g.now+1, lim))
+	for i := 0; i < 1+g.r.Intn(3); i++ {
+		ops = append(ops, e.opBlock(int64(g.r.Intn(2)), lim))
+	}
+	ops = append(ops, e.opBlock(0, c16Limit))
+	return ops
+}
+
+// fourth directed opening: the name changes hands (transfer; deletion and re-binding by a
+// DIFFERENT owner); the former owner's writes must be refused, the new owner's accepted.
+func (g *c16Gen) scenarioTransfer() []c16Op {
+	e := g.e
+	n := g.topName()
+	us := append([]int64{}, g.users...)
+	g.r.Shuffle(len(us), func(i, j int) { us[i], us[j] = us[j], us[i] })
+	a1, a2, a3 := us[0], us[1], us[2]
+	h := g.pick(g.targets)
+	ex := g.now + 20 + int64(g.r.Intn(10))
+	g.expPool = append(g.expPool, ex)
+	sp := func() string { x, _ := g.spell(n); return x }
+	ops := []c16Op{g.scBind(n, a1), e.opAdd(a1, h, sp(), 1, 3, &ex), e.opAdd(a1, g.pick(g.targets), sp(), 2, 5, nil)}
+	auth := a1
+	if g.r.Intn(4) == 0 {
+		auth = c16Gov
+	}
+	ops = append(ops, e.opModify(auth, n, a2, g.r.Intn(2) == 0))
+	ops = append(ops, e.opAdd(a1, h, sp(), 3, 3, nil), e.opDelete(a1, h, n), e.opUpdateExp(a1, h, sp(), 1, nil)) // former owner: refused
+	ops = append(ops, e.opUpdate(a2, h, sp(), 1, 3, 2, 5), e.opAdd(a2, h, sp(), 3, 3, nil))                        // new owner
+	ops = append(ops, e.opDeleteName(n, a1), e.opDeleteName(sp(), a2))                                              // only the new owner may delete the name
+	ops = append(ops, g.scBind(n, a3), e.opAdd(a2, h, sp(), 1, 3, nil), e.opAdd(a3, h, sp(), 1, 3, nil), e.opDeleteDistinct(a3, h, n, 1))
+	return ops
+}
+
+// fifth directed opening: C15's known finding seen through attributes — the name-module key of
+// "ccaa.bb" equals that of "aa.bbcc", so the owner of aa.bbcc is accepted as writer under the
+// never-bound ccaa.bb (reported by bin/check as KNOWN-FINDING, fingerprint
+// "name-key-preimage-collision (attribute write)").
+func (g *c16Gen) scenarioCollision() []c16Op {
+	e := g.e
+	us := append([]int64{}, g.users...)
+	g.r.Shuffle(len(us), func(i, j int) { us[i], us[j] = us[j], us[i] })
+	a1, a3 := us[0], us[2]
+	h := g.pick(g.targets)
+	ops := []c16Op{e.opBind("bbcc", c16Root, "aa", a1, true),
+		e.opAdd(a1, h, "aa.bbcc", 2, 3, nil),
+		e.opAdd(a1, h, "ccaa.bb", 1, 3, nil), // accepted: a1 owns only aa.bbcc
+		e.opBind("bb", c16Root, "ccaa", a3, true),
+		e.opDeleteName("aa.bbcc", a1),
+		e.opDelete(a3, h, "ccaa.bb")}
+	return ops
+}
+
+func c16Ranks[T comparable](ids []T, keyOf func(T) []byte) map[T]int64 {
+	sorted := append([]T{}, ids...)
+	sort.Slice(sorted, func(i, j int) bool { return bytes.Compare(keyOf(sorted[i]), keyOf(sorted[j])) < 0 })
+	out := map[T]int64{}
+	for i, x := range sorted {
+		out[x] = int64(i + 1)
+	}
+	return out
+}
+
 func TestC16(t *testing.T) {
 	r := newRand("C16")
-	w := NewCaseWriter("C16", "PV.Corr.C16", "check_all", 250)
+	w := NewCaseWriter("C16", "PV.Corr.C16", "check_all", 20)
 	app, baseCtx := newApp(t)
 
-	env := &c16Env{app: app, addrs: map[int64]sdk.AccAddress{}, ids: map[string]int64{},
-		gov:  authtypes.NewModuleAddress(govtypes.ModuleName).String(),
-		root: "c16", segs: []string{"aa", "bb", "cc"}, values: []string{"11", "22", "33"},
-		targets: []int64{1, 2, 3}, nameIDs: []int64{1, 2, 3}, haveAcct: []int64{1, 2, 3, 9}}
-	for _, id := range []int64{1, 2, 3, 4, 9} {
-		env.addrs[id] = addrN(160 + int(id))
-		env.ids[env.addrs[id].String()] = id
+	env := &c16Env{app: app, r: r, addrStr: map[int64]string{}, addrBz: map[int64][]byte{}, idByStr: map[string]int64{}, idByBz: map[string]int64{},
+		values: []string{"11", "22", "33", "4444444444", strings.Repeat("5", 10001)}, valID: map[string]int64{},
+		holders: []int64{1, 2, 3, c16NoAcct, c16Scope, c16Sess, c16Mod, c16Root}}
+	for i, v := range env.values {
+		env.valID[v] = int64(i + 1)
 	}
-	env.ids[env.gov] = 0
-	for _, id := range env.haveAcct { // address 4 owns names at times but never has an account
-		ensureAccount(app, baseCtx, env.addrs[id])
+	put := func(id int64, s string, bz []byte) {
+		env.addrStr[id], env.addrBz[id] = s, bz
+		env.idByStr[s], env.idByBz[string(bz)] = id, id
 	}
-	for _, s := range env.segs {
-		env.names = append(env.names, s+"."+env.root)
+	for _, id := range []int64{1, 2, 3, c16NoAcct, c16Root} {
+		a := addrN(160 + int(id))
+		put(id, a.String(), a)
 	}
-	if err := app.NameKeeper.SetNameRecord(baseCtx, env.root, env.addrs[9], true); err != nil {
-		t.Fatalf("root name: %v", err)
+	govAddr := authtypes.NewModuleAddress(govtypes.ModuleName)
+	put(c16Gov, govAddr.String(), govAddr)
+	modAddr := authtypes.NewModuleAddress(attrtypes.ModuleName)
+	put(c16Mod, modAddr.String(), modAddr)
+	scopeID, sessID := uuid.MustParse("91978ba2-5f35-459a-86a7-feca1b0512e0"), uuid.MustParse("5803f8bc-6067-4eb5-951f-2121671c2ec0")
+	scope := metadatatypes.ScopeMetadataAddress(scopeID)
+	sess := metadatatypes.SessionMetadataAddress(scopeID, sessID)
+	put(c16Scope, scope.String(), scope.Bytes())
+	put(c16Sess, sess.String(), sess.Bytes())
+	haveAcct := []int64{1, 2, 3, c16Mod, c16Root}
+	for _, id := range haveAcct {
+		ensureAccount(app, baseCtx, env.acc(id))
 	}
+	if app.AccountKeeper.GetAccount(baseCtx, env.acc(c16Mod)) == nil {
+		t.Fatalf("the attribute module account does not exist")
+	}
+	if app.AccountKeeper.GetAccount(baseCtx, env.acc(c16NoAcct)) != nil {
+		t.Fatalf("address %d is meant to have no account", c16NoAcct)
+	}
+	if app.AccountKeeper.GetAccount(baseCtx, env.acc(c16Gov)) != nil {
+		haveAcct = append(haveAcct, c16Gov)
+	}
+	// names bound before the histories: the genesis account-data name and the harness' roots
+	type root struct {
+		name  string
+		owner int64
+		restr bool
+	}
+	roots := []root{{"c16", c16Root, true}, {"open", c16Root, false}, {"bbcc", c16Root, true}, {"bb", c16Root, true}}
+	var genesis []string
+	if err := app.NameKeeper.IterateRecords(baseCtx, nametypes.NameKeyPrefix, func(rec nametypes.NameRecord) error {
+		genesis = append(genesis, fmt.Sprintf("(%s, %s, %s)", coqStr(rec.Name), nN(env.idOfStr(rec.Address)), coqBool(rec.Restricted)))
+		if env.idOfStr(rec.Address) < 0 {
+			return fmt.Errorf("genesis name %q is owned by an address outside the universe", rec.Name)
+		}
+		return nil
+	}); err != nil {
+		t.Fatalf("genesis names: %v", err)
+	}
+	for _, rt := range roots {
+		if err := app.NameKeeper.SetNameRecord(baseCtx, rt.name, env.acc(rt.owner), rt.restr); err != nil {
+			t.Fatalf("root name: %v", err)
+		}
+		genesis = append(genesis, fmt.Sprintf("(%s, %s, %s)", coqStr(rt.name), nN(rt.owner), coqBool(rt.restr)))
+	}
+	np := app.NameKeeper.GetParams(baseCtx)
 	t0 := int64(1_700_000_000)
 	baseCtx = baseCtx.WithBlockTime(time.Unix(t0, 0).UTC())
+
+	// the two universes of attribute names
+	stdNames := []string{"aa.c16", "bb.c16", "aa.open", "xx.aa.c16"}
+	stdParent := map[string]string{"aa.c16": "c16", "bb.c16": "c16", "aa.open": "open", "xx.aa.c16": "aa.c16"}
+	colNames := []string{"aa.bbcc", "ccaa.bb"}
+	colParent := map[string]string{"aa.bbcc": "bbcc", "ccaa.bb": "bb"}
+	universe := func(attrNames []string, rootNames ...string) []string {
+		return append(append(append([]string{}, attrNames...), rootNames...), attrtypes.AccountDataName)
+	}
+	cfgTerm := func(names []string) string {
+		var have, kinds, vlens, ar, nr, vr []string
+		for _, id := range haveAcct {
+			have = append(have, nN(id))
+		}
+		kinds = append(kinds, fmt.Sprintf("(%s, 1)", nN(c16Scope)), fmt.Sprintf("(%s, 2)", nN(c16Sess)))
+		for i, v := range env.values {
+			vlens = append(vlens, fmt.Sprintf("(%d, %d)", i+1, len(v)))
+		}
+		for id, rk := range c16Ranks(env.holders, func(id int64) []byte { return address.MustLengthPrefix(env.addrBz[id]) }) {
+			ar = append(ar, fmt.Sprintf("(%s, %d)", nN(id), rk))
+		}
+		sort.Strings(ar)
+		for n, rk := range c16Ranks(names, func(n string) []byte { return attrtypes.GetNameKeyBytes(n) }) {
+			nr = append(nr, fmt.Sprintf("(%s, %d)", coqStr(n), rk))
+		}
+		sort.Strings(nr)
+		vids := []int64{1, 2, 3, 4, 5}
+		for id, rk := range c16Ranks(vids, func(id int64) []byte { h := sha256.Sum256([]byte(env.values[id-1])); return h[:] }) {
+			vr = append(vr, fmt.Sprintf("(%d, %d)", id, rk))
+		}
+		sort.Strings(vr)
+		return fmt.Sprintf("(Cfg %d%%N %d%%N %d%%N %s %s %s %s %s %s %s %d)", np.MinSegmentLength, np.MaxSegmentLength, np.MaxNameLevels,
+			coqList(genesis), coqList(have), coqList(kinds), coqList(vlens), coqList(ar), coqList(nr), coqList(vr),
+			app.AttributeKeeper.GetMaxValueLength(baseCtx))
+	}
+	stdUniverse := universe(stdNames, "c16", "open")
+	colUniverse := universe(colNames, "bbcc", "bb")
+	stdCfg, colCfg := cfgTerm(stdUniverse), cfgTerm(colUniverse)
 
 	nHist := scale(240, 4000)
 	for h := 0; h < nHist; h++ {
 		ctx, _ := baseCtx.CacheContext()
-		g := &c16Gen{r: r, e: env, now: t0}
-		g.last = env.observe(ctx, true)
+		g := &c16Gen{r: r, e: env, now: t0, attrName: stdNames, parent: stdParent, users: []int64{1, 2, 3}, targets: []int64{1, 2, 3, c16Scope}}
+		env.names, env.cfg = stdUniverse, stdCfg
+		isCollision := h%12 == 7 // a fixed twelfth of the histories opens with the key-collision shape (known finding)
+		if isCollision {
+			g.attrName, g.parent = colNames, colParent
+			env.names, env.cfg = colUniverse, colCfg
+		}
+		obs0 := env.observe(ctx, true, nil, false, false, false)
+		g.last = obs0
 		nSteps := 12 + r.Intn(scale(30, 50))
 		var pending []c16Op
-		if r.Intn(3) == 0 {
-			pending = g.scenario()
-		}
-		if h%5 == 1 { // a fixed fifth of the histories: identical re-add with the same expiration
+		switch {
+		case isCollision:
+			pending = g.scenarioCollision()
+			w.Count("scripted_name_key_collision")
+		case h%5 == 1: // a fixed fifth of the histories: identical re-add with the same expiration
 			pending = g.scenarioSameExp((h / 5) % 4)
 			w.Count("scripted_same_expiration_readd")
 			w.Count(fmt.Sprintf("scripted_same_expiration_readd_variant_%d", (h/5)%4))
+		case h%5 == 2:
+			pending = g.scenarioLimit()
+			w.Count("scripted_sweep_limit")
+		case h%5 == 3:
+			pending = g.scenarioTransfer()
+			w.Count("scripted_name_changes_hands")
+		case r.Intn(3) == 0:
+			pending = g.scenario()
+			w.Count("scripted_readd_after_purge_or_rebind")
 		}
-		sameExpKeys := map[[3]int64]int64{} // keys re-added with an unchanged expiration -> that time
+		if len(pending) > nSteps {
+			nSteps = len(pending) + 4
+		}
+		sameExpKeys := map[string]int64{} // keys re-added with an unchanged expiration -> that time
 		var steps []string
 		var descs []map[string]any
 		nontrivial := false
-		stale := map[[3]int64][]int64{} // key -> expirations that were replaced while the record stayed
+		stale := map[string][]int64{} // key -> expirations that were replaced while the record stayed
+		formerOwners := map[string]map[int64]bool{}
 		for i := 0; i < nSteps; i++ {
 			var op c16Op
 			if len(pending) > 0 {
@@ -640,11 +1186,32 @@ func TestC16(t *testing.T) {
 			} else {
 				op = g.next()
 			}
+			// what the name of an attribute write resolves to before the op (for the replay and the fingerprint)
+			if op.name != "" {
+				if norm, err := app.NameKeeper.Normalize(ctx, op.name); err == nil {
+					op.desc["name_normalised"] = norm
+					if rec, err := app.NameKeeper.GetRecordByName(ctx, norm); err == nil && rec != nil {
+						op.desc["resolves_to_record_named"] = rec.Name
+					}
+					if norm != op.name {
+						op.spelt = true
+					}
+				} else {
+					op.spelt = true
+				}
+			}
 			var ok bool
 			if op.run == nil {
 				g.now += op.dt
 				ctx = ctx.WithBlockTime(time.Unix(g.now, 0).UTC())
-				err := try(func() error { attribute.BeginBlocker(ctx, app.AttributeKeeper); return nil })
+				err := try(func() error {
+					if op.limit == c16Limit {
+						attribute.BeginBlocker(ctx, app.AttributeKeeper)
+					} else {
+						app.AttributeKeeper.DeleteExpiredAttributes(ctx, int(op.limit))
+					}
+					return nil
+				})
 				ok = err == nil
 			} else {
 				cctx, write := ctx.CacheContext()
@@ -654,10 +1221,30 @@ func TestC16(t *testing.T) {
 					write()
 				}
 			}
-			cur := env.observe(ctx, ok)
+			// the queries of this step
+			q := c16Q{acct: g.pick([]int64{1, 2, 3, c16Scope, 1, 2, 3, c16Scope, c16NoAcct, c16Root}), limit: int64(r.Intn(4) + 1)}
+			if r.Intn(8) == 0 {
+				q.limit = 100
+			}
+			qn := g.pickS(env.names)
+			if len(g.last.recs) > 0 && r.Intn(3) != 0 {
+				rec := g.last.recs[r.Intn(len(g.last.recs))]
+				qn, q.acct = rec.name, rec.acct
+				if q.acct < 0 {
+					q.acct = 1
+				}
+			}
+			q.name = qn
+			if r.Intn(3) == 0 {
+				q.name = c16Spell(r, qn, r.Intn(4)+1)
+			}
+			sufs := []string{qn, qn[1:], "." + qn[strings.LastIndex(qn, ".")+1:], qn[strings.LastIndex(qn, ".")+1:], "6", "a", "data", "xx"}
+			q.suffix = sufs[r.Intn(len(sufs))]
+			byKey, reverse, countTotal := r.Intn(2) == 0, r.Intn(3) == 0, r.Intn(2) == 0
+			cur := env.observe(ctx, ok, &q, byKey, reverse, countTotal)
 			w.Count("op_" + op.kind)
-			if op.sp != 0 {
-				w.Count(fmt.Sprintf("spelling_class_%d", op.sp))
+			if op.spelt {
+				w.Count("noncanonical_spelling")
 				if ok {
 					w.Count("accepted_noncanonical_spelling")
 				}
@@ -668,31 +1255,58 @@ func TestC16(t *testing.T) {
 			} else {
 				w.Count("rejected")
 			}
+			for _, pg := range [][][]c16Rec{cur.q.attrs, cur.q.attr, cur.q.scanned} {
+				if len(pg) > 1 {
+					w.Count("queries_with_more_than_one_page")
+				}
+			}
 			// bookkeeping for the statistics and the non-triviality rule
-			prevByKey := map[[3]int64]c16Rec{}
+			prevByKey := map[string]c16Rec{}
 			for _, rec := range g.last.recs {
 				prevByKey[rec.key()] = rec
 			}
-			curByKey := map[[3]int64]c16Rec{}
+			curByKey := map[string]c16Rec{}
 			for _, rec := range cur.recs {
 				curByKey[rec.key()] = rec
+			}
+			for i, n := range env.names { // ownership changes
+				was, is := g.last.owners[i], cur.owners[i]
+				if was.bound && (!is.bound || is.owner != was.owner) {
+					if formerOwners[n] == nil {
+						formerOwners[n] = map[int64]bool{}
+					}
+					formerOwners[n][was.owner] = true
+					w.Count("name_changed_hands_or_was_deleted")
+				}
+			}
+			if norm, okn := op.desc["name_normalised"].(string); okn && ok && (op.kind == "add" || op.kind == "update" || op.kind == "update_exp" || op.kind == "delete" || op.kind == "delete_distinct") {
+				if c, okc := op.desc["caller"].(int64); okc && len(formerOwners[norm]) > 0 && !formerOwners[norm][c] {
+					w.Count("write_by_a_new_owner_after_the_name_changed_hands")
+					nontrivial = true
+				}
 			}
 			switch op.kind {
 			case "add":
 				if ok {
-					for k, rec := range curByKey {
-						if old, was := prevByKey[k]; was && old.exp != nil && c16SameExp(old.exp, rec.exp) && op.term == c16AddTermFor(op, k) {
-							w.Count("readd_identical_same_expiration")
-							sameExpKeys[k] = *old.exp
-							nontrivial = true
+					a, _ := op.desc["account"].(int64)
+					v, _ := op.desc["value"].(int64)
+					norm, _ := op.desc["name_normalised"].(string)
+					k := c16Rec{acct: a, name: norm, val: v}.key()
+					rec := curByKey[k]
+					if old, was := prevByKey[k]; was && old.exp != nil && c16SameExp(old.exp, rec.exp) {
+						w.Count("readd_identical_same_expiration")
+						sameExpKeys[k] = *old.exp
+						nontrivial = true
+					}
+					if old, was := prevByKey[k]; was && (old.typ != rec.typ || !c16SameExp(old.exp, rec.exp)) {
+						w.Count("readd_identical_changed")
+						nontrivial = true
+						if old.exp != nil {
+							stale[k] = append(stale[k], *old.exp)
 						}
-						if old, was := prevByKey[k]; was && (old.typ != rec.typ || !c16SameExp(old.exp, rec.exp)) {
-							w.Count("readd_identical_changed")
-							nontrivial = true
-							if old.exp != nil {
-								stale[k] = append(stale[k], *old.exp)
-							}
-						}
+					}
+					if a == c16Scope {
+						w.Count("accepted_add_on_scope")
 					}
 				}
 			case "purge", "delete_name":
@@ -705,10 +1319,21 @@ func TestC16(t *testing.T) {
 				}
 			case "block":
 				gone := 0
-				for k := range prevByKey {
+				expired := 0
+				for k, old := range prevByKey {
 					if _, still := curByKey[k]; !still {
 						gone++
 					}
+					if old.exp != nil && *old.exp < g.now {
+						expired++
+					}
+				}
+				if op.limit != 0 && int64(expired) > op.limit {
+					w.Count("sweeps_cut_off_by_the_limit")
+					nontrivial = true
+				}
+				if op.limit != c16Limit {
+					w.Count("sweeps_with_small_or_no_limit")
 				}
 				for k, at := range sameExpKeys {
 					if _, was := prevByKey[k]; !was {
@@ -736,7 +1361,7 @@ func TestC16(t *testing.T) {
 						}
 					}
 				}
-				for k, ss := range stale { // entries before now have been swept
+				for k, ss := range stale { // entries before now have been swept (unless the limit cut in)
 					var keep []int64
 					for _, se := range ss {
 						if se >= g.now {
@@ -750,10 +1375,11 @@ func TestC16(t *testing.T) {
 			steps = append(steps, "("+op.term+", "+cur.term()+")")
 			d := op.desc
 			d["accepted"] = ok
+			d["step"] = i
 			descs = append(descs, d)
 		}
-		term := fmt.Sprintf("History %d %s %s %s %s", t0, "[1; 2; 3; 9]", "[1; 2; 3]", "[1; 2; 3]", "[\n    "+strings.Join(steps, ";\n    ")+"]")
-		w.Add(term, map[string]any{"t0": t0, "steps": descs})
+		term := fmt.Sprintf("History %d %s %s %s\n    (%s) [\n    %s]", t0, env.cfg, c16NList(env.holders), c16StrList(env.names), obs0.term(), strings.Join(steps, ";\n    "))
+		w.Add(term, map[string]any{"kind": "history", "t0": t0, "names": env.names, "steps": descs})
 		w.Count("histories")
 		w.CountN("steps", int64(nSteps))
 		if nontrivial {
@@ -765,13 +1391,12 @@ func TestC16(t *testing.T) {
 	w.Flush(t)
 }
 
-// c16AddTermFor: the add op's own key (only the record the op addressed counts as re-added)
-func c16AddTermFor(op c16Op, k [3]int64) string {
-	d := op.desc
-	if d["account"] == k[0] && d["name"] == k[1] && d["value"] == k[2] {
-		return op.term
+func c16StrList(xs []string) string {
+	var out []string
+	for _, x := range xs {
+		out = append(out, coqStr(x))
 	}
-	return ""
+	return coqList(out)
 }
 
 func c16SameExp(a, b *int64) bool {
